@@ -446,7 +446,11 @@ def run(ctx):
                 problems.append(("count-differs", "count(filters, row_filter=True) = %s but the read returned %s rows" % (o["count"], o["len"])))
             if problems:
                 ctx.fail(classify(spec, prog, problems[0][0], cols), case, "; ".join(p[1] for p in problems))
-            if "model" in o:
+            if "model" in o and has_wrong_type(spec, prog):
+                # a constant of another type than the column (text against an integer-valued directory level, ...): how the
+                # code types such a pair is not modelled row-wise (C08's typing rules decide); outside the grammar
+                ctx.count("model.skipped", "wrong-typed constant, read did not raise")
+            elif "model" in o:
                 mexprs.append(o["model"])
                 mmeta.append((case, got, o["count"]))
             elif "model_skip" in o:
